@@ -84,6 +84,18 @@ def matrix():
     cases.append(("deep-param", expand(TEMPLATE, {"params": "{p: %s}" % ("{a: " * 150 + "1" + "}" * 150)})))
     cases.append(("long-names", expand(TEMPLATE, {"params": "{%s: 1}" % ("x" * 3000), "services": "{%s: {value: V}}" % ("y" * 3000)})))
     cases.append(("many-cycles", "services:\n" + "".join("  s%d: {constructor: N, arguments: [%s]}\n" % (i, ", ".join("\"@s%d\"" % j for j in range(6) if j != i)) for i in range(6))))
+    # self-referential structures in every namespace (anything that is looked up again after being resolved)
+    for nm, imps in [("alias-self", "{lib: \"lib/v2\"}"), ("alias-self-exact", "{lib: \"lib\"}"), ("alias-cycle2", "{app: \"core\", core: \"app\"}"),
+                     ("alias-cycle3", "{a: \"b/x\", b: \"c/y\", c: \"a/z\"}"), ("alias-chain", "{a: \"b\", b: \"c\", c: \"d\", d: \"example.com/e\"}"),
+                     ("alias-of-path", "{\"example.com\": \"example.com/x\", x: \"example.com/y\"}")]:
+        first = imps[1:].split(":")[0].strip("\"")
+        cases.append((nm, "meta:\n  imports: %s\n  functions: {fn: \"%s.Fn\"}\nparameters: {p: \"%%fn()%%\"}\nservices:\n  s: {constructor: \"%s.New\", type: \"*%s/sub.T\", arguments: [\"!value %s.V\"]}\n  v: {value: \"%s.Value\"}\ndecorators:\n  - {tag: t, decorator: \"%s.Decorate\"}\n"
+                      % (imps, first, first, first, first, first, first)))
+    cases.append(("param-self", "parameters: {p: \"%p%\"}\n"))
+    cases.append(("param-mutual", "parameters: {p: \"%q%\", q: \"x%p%\"}\nservices: {s: {constructor: N, arguments: [\"%p%\"]}}\n"))
+    cases.append(("service-self", "services: {s: {constructor: N, arguments: [\"@s\"], tags: [t], fields: {F: \"!tagged t\"}}}\n"))
+    cases.append(("decorator-self", "services: {s: {constructor: N, tags: [t]}}\ndecorators:\n  - {tag: t, decorator: D, arguments: [\"@s\", \"!tagged t\"]}\n"))
+    cases.append(("function-shadows-builtin", "meta: {functions: {env: \"os.Getenv\", todo: \"os.Getenv\", envInt: \"os.Getenv\"}}\nparameters: {p: \"%env(\\\"A\\\")%%todo()%\"}\n"))
     cases.append(("top-level-seq", "[1, 2]\n"))
     cases.append(("top-level-scalar", "hello\n"))
     cases.append(("empty", ""))
